@@ -60,10 +60,10 @@ def build_font(desc, lib="ufoLib2"):
         for base, tr in g.get("components", []):
             pen.addComponent(base, tuple(num(v) for v in tr))
         for a in g.get("anchors", []):
-            if lib == "ufoLib2":
-                glyph.appendAnchor({"name": a[0], "x": num(a[1]), "y": num(a[2])})
-            else:
-                glyph.appendAnchor({"name": a[0], "x": num(a[1]), "y": num(a[2])})
+            ad = {"name": a[0], "x": num(a[1]), "y": num(a[2])}
+            if len(a) > 3 and a[3]:
+                ad["identifier"] = a[3]       # contextual anchors ("*name") are tied to public.objectLibs by identifier
+            glyph.appendAnchor(ad)
         for k, v in g.get("lib", {}).items():
             glyph.lib[k] = v
     if desc.get("glyphOrder") is not None:
